@@ -181,8 +181,60 @@ def plain_lines(width, height, color, how, lines, terminal=True, dumb=False):
     return out
 
 
+def _kw_print(**kw):
+    return lambda c, text: c.print(text, **kw)
+
+
+# Print / log OPTION variety (round-g gap: `Console.print(..., style=...)` is the only path that sends the hook's
+# position_cursor() control segment through Segment.apply_style).  Every entry is one way user code writes `text`
+# to the console; the model is told the lines a console WITHOUT a live display writes for the very same call
+# (`plain_lines`), the screen oracle judges what the call leaves on the screen under the display.
+# (`end=""` is the stated non-claim of Props/C10.lean; `width=` re-renders the frame at that width: not generated.)
+PRINT_HOWS = {
+    "o:style": _kw_print(style="red"),
+    "o:style-obj": lambda c, t: c.print(t, style=Style(bold=True, bgcolor="blue")),
+    "o:style-seg": lambda c, t: c.print(LinesR(t.split("\n")), style="italic"),
+    "o:style-two": lambda c, t: c.print(t, LinesR(["r"]), style="green"),
+    "o:just-right": _kw_print(justify="right"),
+    "o:just-center": _kw_print(justify="center"),
+    "o:just-full": _kw_print(justify="full"),
+    "o:just-style": _kw_print(justify="center", style="on blue"),
+    "o:end2": _kw_print(end="\n\n"),
+    "o:endx": _kw_print(end=" <\n"),
+    "o:end-style": _kw_print(end="!\n", style="bold"),
+    "o:soft": _kw_print(soft_wrap=True),
+    "o:soft-style": _kw_print(soft_wrap=True, style="red"),
+    "o:nocrop": _kw_print(crop=False),
+    "o:nocrop-style": _kw_print(crop=False, style="underline"),
+    "o:nowrap": _kw_print(no_wrap=True),
+    "o:nowrap-style": _kw_print(no_wrap=True, style="red"),
+    "o:ellipsis": _kw_print(no_wrap=True, overflow="ellipsis"),
+    "o:fold": _kw_print(overflow="fold"),
+    "o:nomarkup": _kw_print(markup=False),
+    "o:nohl": _kw_print(highlight=False),
+    "o:hl": _kw_print(highlight=True),
+    "o:noemoji": _kw_print(emoji=False),
+    "o:sep": lambda c, t: c.print(t, 42, sep=" -- "),
+    "o:two": lambda c, t: c.print(t, t),
+    "o:text": lambda c, t: c.print(Text(t, style="bold"), style="red"),
+    "o:log-style": lambda c, t: c.log(t, style="red"),
+    "o:log-just": lambda c, t: c.log(t, justify="right"),
+    "o:log-two": lambda c, t: c.log(t, 7, sep="|"),
+    "o:log-nomarkup": lambda c, t: c.log(t, markup=False, highlight=False),
+    "o:out": lambda c, t: c.out(t),
+    "o:out-style": lambda c, t: c.out(t, style="bold"),
+    "o:out-two": lambda c, t: c.out(t, 3, sep="+", highlight=False),
+    "o:rule": lambda c, t: c.rule(t.split("\n")[0]),
+    "o:rule0": lambda c, t: c.rule(),
+    "o:rule-left": lambda c, t: c.rule(t.split("\n")[0], align="left", characters="="),
+    "o:rule-style": lambda c, t: c.rule(t.split("\n")[0], style="red"),
+}
+
+
 def _emit_user(console, how, lines, style):
-    if how == "seg":
+    if how in PRINT_HOWS:
+        PRINT_HOWS[how](console, "\n".join(lines))
+    elif how == "seg":
         console.print(LinesR(lines, style))
     elif how == "str":
         console.print("\n".join(lines))
@@ -224,6 +276,19 @@ def enc_tokens(tokens):
             out.append("H")
         else:
             out.append("?" + repr(t))
+    return ",".join(out)
+
+
+def enc_tokens_styled(tokens):
+    """The whole stream, rendition (`G`) and hyperlink (`O`) sequences included, text runs as tokenised (NOT merged)."""
+    out = []
+    for t in tokens:
+        if t[0] == "SGR":
+            out.append("G")
+        elif t[0] == "OSC8":
+            out.append("O")
+        else:
+            out.append(enc_tokens([t]) if not (t[0] == "T" and t[1] == "") else "T")
     return ",".join(out)
 
 
